@@ -100,6 +100,10 @@ func c03Configs() []Cfg {
 			}
 		}
 	}
+	// the extensions built with their own options (titles with placeholders, further Linkify
+	// protocols including dangerous ones, Typographer substitutions)
+	out = append(out, Cfg{Ext: "gfm", Opts: true}, Cfg{Ext: "all", Opts: true, XHTML: true, AutoID: true, Attr: true}, Cfg{Ext: "footnote", Opts: true, FnPrefix: "n-"},
+		Cfg{Ext: "typo", Opts: true, HardWraps: true}, Cfg{Ext: "linkify", Opts: true, XHTML: true})
 	return out
 }
 
